@@ -129,15 +129,16 @@ ezc3d::DataNS::Frame &ezc3d::DataNS::Data::frame_nonConst(size_t idx)
 
 void ezc3d::DataNS::Data::frame(const ezc3d::DataNS::Frame &frame, size_t idx)
 {
-    if (idx == SIZE_MAX){
-        // Copy the content (and not the shared pointers) of the frame, as the indexed path does
-        _frames.push_back(ezc3d::DataNS::Frame());
-        _frames.back().add(frame);
-    }
+    // Copy the content (and not the shared pointers) of the frame first: the frame may be one of the
+    // stored frames (e.g. frame(data().frame(0)) to duplicate it) and growing the vector would invalidate it
+    ezc3d::DataNS::Frame copy;
+    copy.add(frame);
+    if (idx == SIZE_MAX)
+        _frames.push_back(copy);
     else {
         if (idx >= _frames.size())
             _frames.resize(idx+1);
-        _frames[idx].add(frame);
+        _frames[idx] = copy;
     }
 }
 
